@@ -31,6 +31,7 @@ pub mod common;
 pub mod profiles;
 pub mod stream;
 pub mod stream64;
+pub mod zoo;
 
 pub fn main(args: &[String]) {
     let mut profile = "C01".to_string();
